@@ -1163,6 +1163,17 @@ func TestVerifC03NodeFaults(t *testing.T) {
 	installLogCapture(t)
 	t.Setenv("VAULT_MAX_RETRIES", "0")
 	alphabet := faultAlphabet()
+	if !r.Thorough() {
+		// quick tier: 7 representatives of the 19 header-level deviations on the node (all 19 run in the in-process faults part, and here in the thorough tier)
+		keep := map[string]bool{"ok/ct-absent": true, "ok/ct-text-plain": true, "ok/ct-json-substring": true, "ok/length-too-short": true, "ok/chunked": true, "ok/trailing-garbage": true, "ok/status-201": true}
+		var a []faultMode
+		for _, m := range alphabet {
+			if !strings.HasPrefix(m.Name, "ok/") || keep[m.Name] {
+				a = append(a, m)
+			}
+		}
+		alphabet = a
+	}
 	r.Rule("nodefaults: the assembled node started with crypto.storage = external | vaultkv against the in-process fake secret store, driven over its real HTTP API; every API operation that creates or uses a key " +
 		"(create subject, add verification method v2 / v1, create did:nuts v1, deactivate, issue VC ldp / jwt x web / nuts, present ldp / jwt, sign_jwt, sign_jws, DPoP, decrypt_jwe, diagnostics + health) is run unfaulted to count the " +
 		"back-end requests n it causes, then once per (k in 1..n) x (answer of the fault alphabet of the faults part); oracle: no canary form of any private key the store holds or was asked to hold, and no parsable private-key " +
